@@ -49,6 +49,22 @@ def one(key):
                        env={'VERIF_PACKAGE_ROOT': scratch, 'VERIF_OUT': out, 'VERIF_SEED': '1'})
             sigs = [l.strip().split(']')[0].lstrip('[') for l in o.splitlines() if l.startswith('  [')]
             caught[cid] = {'rc': rc, 'signatures': sigs[:6]}
+        if ONLY_OWN and caught[pid]['rc'] == 1 and not glob.glob(os.path.join(VERIF, 'replays', pid, f'seeded-{key}-*.json')):
+            # keep (the two smallest of) the replay files the own check wrote as permanent regression cases
+            files = sorted(glob.glob(os.path.join(out, 'replays', pid, '*.json')), key=os.path.getsize)
+            kept = 0
+            for f in files:
+                if os.path.basename(f).startswith(('seeded-', 'quiet-', 'known-')):
+                    continue
+                doc = json.load(open(f))
+                if len(json.dumps(doc)) > 60000:
+                    continue
+                doc['origin'] = f'found by ./check {pid} quick against seeded/{key}/patch.diff'
+                dst = os.path.join(VERIF, 'replays', pid, f'seeded-{key}-{kept + 1}.json')
+                json.dump(doc, open(dst, 'w'), indent=1, sort_keys=True, default=repr)
+                kept += 1
+                if kept == 2:
+                    break
         meta['quick_checks'] = caught
         meta['caught_by'] = [c for c, v in caught.items() if v['rc'] == 1]
         meta['harness_errors'] = [c for c, v in caught.items() if v['rc'] not in (0, 1)]
